@@ -234,7 +234,9 @@ func VH_C08_ake() {
 	p := vhNewParty(0, true)
 	c := p.c
 	exp := vBytes("exp", 40)
-	vAssume(exp[0] != 0)
+	// (a random 320-bit exponent: not mostly zero bytes - the native confirmation
+	// of "unreachable" is a byte scan, which a value like 53 00 .. 00 defeats)
+	vAssume(vAll(exp[0] != 0, exp[13] != 0, exp[26] != 0, exp[39] != 0))
 	val := makeCopy(exp)
 	rkey := vBytes("r", 16)
 	c.ake = &ake{state: authStateAwaitingDHKey{}}
